@@ -250,7 +250,11 @@ def main(argv):
     seen = set()
 
     def level(cands, lvl, sample_every=0):
+        import sys
+        import time
+
         cands = sorted(set(cands), key=repr)
+        print(f"[{PID}] level {lvl}: {len(cands)} candidates t={time.time() - run.t0:.0f}s", file=sys.stderr)
         run.bounds[f"level{lvl}_candidates"] = len(cands)
         new = run_level(cands, U, envs, PID, run, run.seed, extra_check=pass_check, compare=False, sample_every=sample_every)
         sts, _ = dedup(new, seen, lvl, run)
@@ -322,9 +326,9 @@ def main(argv):
     c = []
     pats = IDX if not quick else {1: IDX[1][:4], 2: IDX[2][:6]}
     src = l3 + l3c + [s for s in l2 if s.rank]
-    if quick:
-        # quick: only tensors whose recipe mentions at most 2 distinct terminals from {v, A, Vv, f}
-        src = [s for s in src if set(_terms(s.recipe)) <= {"v", "A", "Vv", "f", "w"}]
+    # only tensors whose recipe mentions terminals from a reduced set (the full set does not finish in reasonable time)
+    allowed = {"v", "A", "Vv", "f", "w"} if quick else {"v", "A", "Vv", "Vf", "f", "w", "c", "I"}
+    src = [s for s in src if set(_terms(s.recipe)) <= allowed]
     for s in src:
         c += index_cands(s, pats)
     l4 = level(c, 4, sample_every=2000)
@@ -332,9 +336,10 @@ def main(argv):
     partners = [s for s in l1 if s.recipe[1][1] in ("v", "w", "A", "Vv") and s.fid] + [
         s for s in l0 if s.recipe[1] in ("f",)
     ]
-    if quick:
-        keep = {("getitem", ("t", "v"), "k"), ("getitem", ("t", "v"), "i"), ("getitem", ("t", "A"), "i", "k")}
-        partners = [s for s in partners if s.recipe in keep]
+    keep = {("getitem", ("t", "v"), "k"), ("getitem", ("t", "v"), "i"), ("getitem", ("t", "A"), "i", "k")}
+    if not quick:
+        keep |= {("getitem", ("t", "w"), "j"), ("getitem", ("t", "A"), "k", "i"), ("getitem", ("t", "Vv"), "i"), ("t", "f")}
+    partners = [s for s in partners if s.recipe in keep]
     c = []
     for a in l4:
         for b in partners:
@@ -343,7 +348,7 @@ def main(argv):
     levels = [l0, l1, l2, l3, l3b, l3b2, l3c, l4, l5]
     if not quick:
         c = []
-        for s in l5:
+        for s in sorted(l5, key=lambda s: (len(repr(s.recipe)), repr(s.recipe)))[:4000]:
             c += tensor_cands(s, maxn=1)
             if s.rank:
                 c += index_cands(s, {1: IDX[1][:4], 2: IDX[2][:6]})
